@@ -52,7 +52,7 @@ variable (T : Tables) (hT : TablesOK T) (txt : Bytes)
 include hT
 
 theorem parseAttribute_spec {s : Stream} (hs : SOk txt s) :
-    RSpec (parseAttribute T txt s) (Step txt s) := by
+    RSpec (parseAttribute T txt s) (fun p => Step txt s p.1) := by
   unfold parseAttribute
   apply rspec_bind _ _ _ _ (consumeQName_spec T txt hs)
   rintro ⟨s1, _, _⟩ ⟨h1, _, _⟩
@@ -62,9 +62,19 @@ theorem parseAttribute_spec {s : Stream} (hs : SOk txt s) :
   rintro ⟨s3, q⟩ ⟨h3, hq, _⟩
   apply rspec_bind _ _ _ _ (consumeChars_spec T txt _ h3.2)
   rintro ⟨s4, _⟩ ⟨h4, _⟩
-  refine rspec_weaken (consumeByte_spec h4.2 q hq) ?_
+  apply rspec_bind _ _ _ _ (consumeByte_spec h4.2 q hq)
   intro s5 h5
-  exact Step.trans h1 (Step.trans h2 (Step.trans h3 (Step.trans h4 h5.1)))
+  exact rspec_ok _ _ (Step.trans h1 (Step.trans h2 (Step.trans h3 (Step.trans h4 h5.1))))
+
+theorem parsePseudoAttribute_spec {s : Stream} (hs : SOk txt s) (name : Bytes) :
+    RSpec (parsePseudoAttribute T txt s name) (Step txt s) := by
+  unfold parsePseudoAttribute
+  apply rspec_bind _ _ _ _ (parseAttribute_spec T hT txt hs)
+  rintro ⟨s1, pfx, loc⟩ h1
+  dsimp only
+  split
+  · exact errFrom_safe _ _ _ _
+  · exact rspec_ok _ _ h1
 
 theorem declConsumeSpaces_spec {s : Stream} (hs : SOk txt s) :
     RSpec (declConsumeSpaces T txt s) (Step txt s) := by
@@ -86,7 +96,7 @@ theorem declEnd_spec {s : Stream} (hs : SOk txt s) : RSpec (declEnd T txt s) (St
 theorem declStandalone_spec {s : Stream} (hs : SOk txt s) : RSpec (declStandalone T txt s) (Step txt s) := by
   unfold declStandalone
   split
-  · apply rspec_bind _ _ _ _ (parseAttribute_spec T hT txt hs)
+  · apply rspec_bind _ _ _ _ (parsePseudoAttribute_spec T hT txt hs _)
     intro s1 h1
     exact rspec_weaken (declEnd_spec T hT txt h1.2) (fun _ h => Step.trans h1 h)
   · exact declEnd_spec T hT txt hs
@@ -94,7 +104,7 @@ theorem declStandalone_spec {s : Stream} (hs : SOk txt s) : RSpec (declStandalon
 theorem declEncoding_spec {s : Stream} (hs : SOk txt s) : RSpec (declEncoding T txt s) (Step txt s) := by
   unfold declEncoding
   split
-  · apply rspec_bind _ _ _ _ (parseAttribute_spec T hT txt hs)
+  · apply rspec_bind _ _ _ _ (parsePseudoAttribute_spec T hT txt hs _)
     intro s1 h1
     apply rspec_bind _ _ _ _ (declConsumeSpaces_spec T hT txt h1.2)
     intro s2 h2
@@ -116,7 +126,7 @@ theorem parseDeclaration_spec {s : Stream} (hs : SOk txt s) (hp : s.startsWith L
   have h12 := Step.trans h1 h2
   split
   · exact rspec_weaken (skipString_spec h2.2 Lit.version (lit_valid _ (by decide))) (fun _ h => Step.trans h12 h.1)
-  · apply rspec_bind _ _ _ _ (parseAttribute_spec T hT txt h2.2)
+  · apply rspec_bind _ _ _ _ (parsePseudoAttribute_spec T hT txt h2.2 _)
     intro s3 h3
     apply rspec_bind _ _ _ _ (declConsumeSpaces_spec T hT txt h3.2)
     intro s4 h4
@@ -156,7 +166,8 @@ theorem parsePi_spec {s : Stream} (hs : SOk txt s) (hp : s.startsWith Lit.piStar
     rintro s1 ⟨h1, hp1⟩
     apply spec_bind _ _ _ _ _ (spec_of_rspec _ _ _ (consumeName_spec T txt h1.2))
     rintro ⟨s2, target⟩ ⟨h2, hsp2, _, _, htne⟩
-    have h3 := skipSpaces_step T hT h2.2
+    apply spec_bind _ _ _ _ _ (spec_of_rspec _ _ _ (declConsumeSpaces_spec T hT txt h2.2))
+    intro s3 h3
     apply spec_bind _ _ _ _ _ (spec_of_rspec _ _ _ (consumeChars_spec T txt _ h3.2))
     rintro ⟨s4, content⟩ ⟨h4, hsp4, _, _⟩
     apply spec_bind _ _ _ _ _ (spec_of_rspec _ _ _ (skipString_spec h4.2 Lit.piEnd (lit_valid _ (by decide))))
